@@ -302,6 +302,12 @@ def programs(tier: str) -> list[dict]:
     progs += list(P.fam_pad())
     for p in progs:
         p["outs"] = {"out0": p["outs"]["out"]}
+    for p in P.fam_concat_empty():
+        p["outs"] = {("out0" if k == "out" else k): v for k, v in p["outs"].items()}
+        progs.append(p)
+    for p in P.fam_boolarith():
+        p["outs"] = {("out0" if k == "out" else k): v for k, v in p["outs"].items()}
+        progs.append(p)
     # how scalar constants are rendered (never thinned out)
     for p in P.fam_scalars():
         p["outs"] = {("out0" if k == "out" else k): v for k, v in p["outs"].items()}
